@@ -41,4 +41,6 @@ def run(ctx, rep):
     rep.run(RI.rule_instantiated_siblings, ctx, rep, "N9")
     rep.run(RT.rule_no_reorder, ctx, rep, "N8")
     rep.run(RT.rule_lists_kept_whole, ctx, rep, "N8")
+    rep.run(RF.rule_parent_walk_truthiness, ctx, rep, "N9")
+    rep.run(RI.rule_flat_name_of_nested_arguments, ctx, rep, "N10")
     rep.run(RF.rule_locals_defined, ctx, rep, "U1", packages=("gtwrap/template_instantiator",), min_functions=3)
